@@ -113,8 +113,10 @@ class ScanInterp(Interp):
                             continue
                         c = Lin.sym(('$', m))
                         for sign in (1, -1):
-                            # the byte in hand is 0 when the cursor is one past the terminator
+                            # the byte in hand is 0 when the cursor is one past the terminator (`c = *p++`)
                             add(c * sign - (ln + 1 - off) * 255)
+                            # ... or when the cursor is AT the terminator (`c = *p` ... `c = *++p`)
+                            add(c * sign - (ln - off) * 255)
             elif what[0] == 'phi':
                 for k in (0, 1, -1):
                     add(x - k)
@@ -136,6 +138,7 @@ class ScanInterp(Interp):
                             c = Lin.sym(('$', m))
                             for sign in (1, -1):
                                 add(c * sign - (ln + 1 - x) * 255)
+                                add(c * sign - (ln - x) * 255)
         if self.extra_cands is not None:
             for c in self.extra_cands(self, st, newsyms, self._inits):
                 add(c)
